@@ -1,11 +1,11 @@
 #!/bin/bash
 # run every claimed check sequentially; summary lines to stdout.  usage: sweep.sh [quick|thorough] [per-check timeout s] [ids...]
-cd /verif
+cd "$(dirname "$0")/.."
 TIER=${1:-quick}; TO=${2:-3600}; shift; shift
 IDS="$@"
 [ -z "$IDS" ] && IDS=$(python3 -c "import json; print(' '.join(c['property_id'] for c in json.load(open('MANIFEST.json'))['checks']))")
 for id in $IDS; do
   t0=$(date +%s)
-  timeout $TO ./check $id --tier $TIER > /tmp/sweep_${TIER}_$id.log 2>&1; rc=$?
-  echo "$id exit=$rc wall=$(( $(date +%s) - t0 ))s $(grep '^\[' /tmp/sweep_${TIER}_$id.log | tail -1 | cut -c1-200)"
+  timeout $TO ./check $id --tier $TIER > ${SWEEP_LOGDIR:-/tmp}/sweep_${TIER}_$id.log 2>&1; rc=$?
+  echo "$id exit=$rc wall=$(( $(date +%s) - t0 ))s $(grep '^\[' ${SWEEP_LOGDIR:-/tmp}/sweep_${TIER}_$id.log | tail -1 | cut -c1-200)"
 done
